@@ -8,8 +8,8 @@
 (*          start, alone = RxCmd turn-around); while DIR stays high every  *)
 (*          cycle is a data byte (NXT=1, only inside a receive) or an      *)
 (*          RxCmd byte (NXT=0); DIR may fall at any point (NXT low in that *)
-(*          cycle); a DIR+NXT start is followed by the RxCmd announcing    *)
-(*          RxActive (Fig. 17).  With DIR low NXT is free (transmit side). *)
+(*          cycle); after a DIR+NXT start the PHY may present an RxCmd or  *)
+(*          data at once.  With DIR low NXT is free (transmit side).       *)
 (*   Ref  : the PHY-side truth the property talks about — is a receive in  *)
 (*          progress (phyRx), which bytes were presented as packet data    *)
 (*          (pend, with age and packet number), the most recent RxCmd —    *)
@@ -73,8 +73,6 @@ KF_StaleCmdStart(i) == IsCmd(i) /\ RxActiveBit(i.di) /\ ~phyRx /\ cmdHist[1] # N
 LegalIn(i) ==
     /\ (i.dir = 0 /\ pdir = 1) => i.nxt = 0            \* DIR falls with NXT low
     /\ IsData(i) => phyRx                              \* data bytes only inside a receive
-    /\ (nxtStart /\ i.dir = 1) => (i.nxt = 0 /\ RxActiveBit(i.di))   \* [ULPI 1.1 Fig. 17] a DIR+NXT start is
-                                                       \* followed by the RxCmd announcing RxActive
     /\ i.rr = 1 => (IsRead(i) /\ rrPhase = 1)              \* read data directly follows its turn-around
     /\ rrPhase = 2 => i.dir = 0                            \* ... and is followed by the closing turn-around
     /\ (KF_CmdStartThenByte(i) \/ KF_StaleCmdStart(i)) => AllowKF
